@@ -2,7 +2,9 @@
 specs: SentJournal.tla (ack/loss -> frames), RcvdJournal.tla (ACK generation, duplicates)."""
 import json
 import vlib
-from checks import common, sentj, rcvdj
+from checks import common, sentj, rcvdj, ext_ackpolicy
+
+BINS = ["vh"] + ext_ackpolicy.BINS
 
 
 def run(tier, rep):
@@ -14,6 +16,8 @@ def run(tier, rep):
                        "update_largest/ack/loss/fast-retransmit, ticks. Everything is executed on the real journals under paused tokio time and every "
                        "recorded step validated by TLC. distinct_nontrivial = distinct runs producing an ACK frame with >= 2 ranges (a) / an ack that "
                        "reported at least one frame (b).")
+    # the acknowledgement POLICY (when an ACK is demanded): a truthful generator is useless if nobody asks it
+    ext_ackpolicy.run_part("C10", tier, rep)
     rep.cov["exhaustive"] = True
     rep.assumptions += ["gen_ack_frame_util is asked for a `largest` that is received and still tracked (what need_ack()/the paths pass)",
                         "on_rcvd_pn is only called for numbers decode_pn accepted",
@@ -22,6 +26,8 @@ def run(tier, rep):
 
 def replay(path):
     v = json.load(open(path))
+    if v["payload"].get("component") == "AckPolicy" or "/AckPolicy/" in v.get("signature", ""):
+        return ext_ackpolicy.replay("C10", path)
     if v["payload"].get("component") == "RcvdJournal":
         return rcvdj.replay("C10", path)
     return sentj.replay("C10", path)
